@@ -212,9 +212,12 @@ fn riff(d: &[u8]) -> Result<Units, String> {
 }
 
 fn tiff(d: &[u8]) -> Result<Units, String> {
-    if d.len() < 8 || &d[..4] != b"II*\0" {
-        return Err("not little-endian classic TIFF".into());
+    if d.len() < 8 || (&d[..4] != b"II*\0" && &d[..4] != b"MM\0*") {
+        return Err("not classic TIFF".into());
     }
+    let be = d[0] == b'M';
+    let le16 = |d: &[u8], p: usize| -> Option<usize> { if be { d.get(p..p + 2).map(|b| u16::from_be_bytes([b[0], b[1]]) as usize) } else { le16(d, p) } };
+    let le32 = |d: &[u8], p: usize| -> Option<usize> { if be { d.get(p..p + 4).map(|b| u32::from_be_bytes([b[0], b[1], b[2], b[3]]) as usize) } else { le32(d, p) } };
     let mut u = Units::new();
     let mut ifd = le32(d, 4).ok_or("short")?;
     let tsize = |t: usize| match t {
@@ -247,9 +250,9 @@ fn tiff(d: &[u8]) -> Result<Units, String> {
             };
             let nums = |v: &[u8]| -> Vec<usize> {
                 if typ == 3 {
-                    v.chunks(2).map(|c| u16::from_le_bytes([c[0], c[1]]) as usize).collect()
+                    v.chunks(2).filter(|c| c.len() == 2).map(|c| if be { u16::from_be_bytes([c[0], c[1]]) } else { u16::from_le_bytes([c[0], c[1]]) } as usize).collect()
                 } else {
-                    v.chunks(4).filter(|c| c.len() == 4).map(|c| u32::from_le_bytes([c[0], c[1], c[2], c[3]]) as usize).collect()
+                    v.chunks(4).filter(|c| c.len() == 4).map(|c| if be { u32::from_be_bytes([c[0], c[1], c[2], c[3]]) } else { u32::from_le_bytes([c[0], c[1], c[2], c[3]]) } as usize).collect()
                 }
             };
             match tag {
